@@ -19,8 +19,21 @@
   `then_distrib_l_partial` / `tensor_distrib_l_partial` (left operand with at most one term —
   in particular any diagram) and `…_distrib_l_perm` (all sums, equal up to a permutation of
   the terms).  Right distributivity, dagger, units and the empty sum are proved in full.
+
+  SPECIAL BOXES (Model/Special.lean): the box subclasses with their own constructor signature /
+  `dagger` override (grammar Word, Swap, Cup, Cap, Discard, MixedState, Measure, Encode, Digits/Bits,
+  Ket, Bra, Copy, Match, ClassicalGate, QuantumGate, rotations, Controlled, circuit.Box, Scalar,
+  zx Scalar/spiders/Had, tensor Spider), modelled at box level (constructor arguments, dom, cod,
+  dagger).  Proved: dagger is identity on objects for ALL of them (`special_dagger_dom/_cod`) and
+  involutive on the `Plain` ones.  PARTIAL: `SpecialDaggerInvolutive` (all of them) is FALSE for
+  the code — `circuit.Box(_dagger=None)`, `QuantumGate(data=…)`, `Scalar(name=…)` with non-real
+  data (findings F42a-c) — kept as an unproved `def`, refuted by `not_specialDaggerInvolutive`.
+  The diagram-level theorems above are about the generic `Box`; they use a box only through
+  `Box.dag` being involutive and identity on objects, which is what is proved here for the
+  special classes (diagrams OF special boxes are exercised on the real code by the zoo stream).
 -/
 import Proofs.SumLaws
+import Proofs.Special
 
 namespace DV.C02
 open DV
@@ -189,6 +202,62 @@ theorem single_tensor (f g : Diagram) (hf : f.WF) (hg : g.WF) :
   ⟨_, Diagram.tensor_eq_tensorD hf hg, Sum.single_tensor hf hg⟩
 theorem single_dagger (f : Diagram) (hf : f.WF) :
     (Sum.single f).dagger = .ok (Sum.single f.dagger) := Sum.single_dagger hf
+
+/-! ### Special box subclasses: dagger at box level (Model/Special.lean) -/
+
+open DV.Special in
+/-- `box[::-1].dom == box.cod` for every special box, all flags, all sizes. -/
+theorem special_dagger_dom (b : SBox) : b.dag.dom = b.cod := SBox.dag_dom b
+
+open DV.Special in
+theorem special_dagger_cod (b : SBox) : b.dag.cod = b.dom := SBox.dag_cod b
+
+open DV.Special in
+/-- `box[::-1][::-1] == box` (as `=` on all constructor arguments) on the `Plain` boxes — on ALL
+    boxes once the model switch `f42Fixed` follows the repair of F42a-c. -/
+theorem special_dagger_dagger_partial (b : SBox) (h : SBox.f42Fixed = true ∨ b.Plain) : b.dag.dag = b :=
+  SBox.dag_dag b h
+
+open DV.Special in
+theorem special_dagger_plain (b : SBox) (h : b.Plain) : b.dag.Plain := SBox.dag_plain b h
+
+open DV.Special in
+/-- Full strength (no `Plain`) for the code as it is (`dagW false`): FALSE, see
+    `not_specialDaggerInvolutive`. -/
+def SpecialDaggerInvolutive : Prop := ∀ b : SBox, (b.dagW false).dagW false = b
+
+open DV.Special in
+theorem not_specialDaggerInvolutive : ¬ SpecialDaggerInvolutive :=
+  fun h => SBox.not_dag_dag_cbox_none (h _)
+
+open DV.Special in
+theorem not_specialDaggerInvolutive_quantumGate_data :
+    ((SBox.quantumGate "'W'" 1 "0.5" (some false)).dagW false).dagW false
+      ≠ .quantumGate "'W'" 1 "0.5" (some false) := SBox.not_dag_dag_quantumGate_data
+
+open DV.Special in
+theorem not_specialDaggerInvolutive_scalar_named :
+    ((SBox.scalar "'foo'" 0 1 false).dagW false).dagW false ≠ .scalar "'foo'" 0 1 false :=
+  SBox.not_dag_dag_scalar_named
+
+open DV.Special in
+/-- With the patch proposed in notes/finding_F42.diff the involution holds for every special box. -/
+theorem special_dagger_dagger_patched (b : SBox) : (b.dagW true).dagW true = b :=
+  SBox.dagW_true_involutive b
+
+section
+open DV.Special DV.Special.SBox
+-- the uniform distribution on a bit and its dagger (the classical cap of circuits)
+example : (mixedState [bit]).dag = SBox.discard [bit] ∧ (mixedState [bit]).dag.dom = [bit] := by decide
+-- a word with a domain: dagger swaps dom and cod although the constructor lists cod first
+example : (word "'w'" [⟨"'n'", 0⟩, ⟨"'n'", 0⟩] [⟨"'s'", 0⟩] "-" false).dag.dom
+    = [⟨"'n'", 0⟩, ⟨"'n'", 0⟩] := by decide
+-- non-destructive measurement overriding bits: qubit @ bit -> qubit @ bit, dagger an Encode
+example : (measure 1 false true).dom = [qubit, bit] ∧ (measure 1 false true).cod = [qubit, bit]
+    ∧ (measure 1 false true).dag = encode 1 false true := by decide
+example : (measure 2 true false).Plain ∧ (scalar "'scalar'" 1 2 false).Plain
+    ∧ (cbox "'m'" [bit] [qubit] "-" (some true)).Plain := by decide
+end
 
 /-! ### Non-vacuity: concrete non-trivial instances (a scalar box, an effect, a daggered box,
     empty domains) on which the laws' hypotheses hold and the operations are defined. -/
